@@ -225,6 +225,11 @@ pub struct World<'a> {
     removed_hb: BTreeMap<(usize, ChitchatId), u64>,
     /// (slot, member) -> number of strictly increasing heartbeats seen since (re)creation
     fresh_since_creation: BTreeMap<(usize, ChitchatId), (u64, u32)>,
+    /// Per (observer, member): time of the last fresh heartbeat observation, sequence number of
+    /// the latest pair of fresh observations at most max_interval apart, sequence number of the
+    /// last evaluation that classified the member dead.
+    fresh_timing: BTreeMap<(usize, ChitchatId), (Option<u128>, Option<u64>, Option<u64>)>,
+    ev_seq: u64,
     /// copies that passed a delete (C02 non-triviality)
     passed_delete: BTreeSet<(usize, ChitchatId)>,
     /// (slot, member, key, version) -> virtual time at which this node first held that marked
@@ -282,6 +287,8 @@ impl<'a> World<'a> {
             dead_since: BTreeMap::new(),
             removed_hb: BTreeMap::new(),
             fresh_since_creation: BTreeMap::new(),
+            fresh_timing: BTreeMap::new(),
+            ev_seq: 0,
             passed_delete: BTreeSet::new(),
             marked_since: BTreeMap::new(),
             catch_up_via_serde: false,
@@ -554,6 +561,7 @@ impl<'a> World<'a> {
         }
         if !pre_known && node.chitchat.node_state(&member).is_some() {
             self.fresh_since_creation.insert((n, member.clone()), (0, 0));
+            self.fresh_timing.remove(&(n, member.clone()));
             if self.removed_hb.contains_key(&(n, member.clone())) && mon == Monitor::C12 {
                 return Err(fail(mon, "revived-by-catch-up", format!("n{n} recreated removed member {:?} through the catch-up entry point", member)).into());
             }
@@ -621,6 +629,7 @@ impl<'a> World<'a> {
         self.dead_since.retain(|(s, _), _| *s != slot);
         self.removed_hb.retain(|(s, _), _| *s != slot);
         self.fresh_since_creation.retain(|(s, _), _| *s != slot);
+        self.fresh_timing.retain(|(s, _), _| *s != slot);
         self.passed_delete.retain(|(s, _)| *s != slot);
         self.marked_since.retain(|(s, _, _, _), _| *s != slot);
     }
@@ -995,6 +1004,7 @@ impl<'a> World<'a> {
                         }
                     }
                 }
+                self.fresh_timing.remove(&key);
                 self.fresh_since_creation.insert(key, (0, 0));
             }
         }
@@ -1002,6 +1012,7 @@ impl<'a> World<'a> {
             self.flags.removed_then_mentioned = true;
         }
         // Fresh heartbeat observations (for the "not live before two increasing heartbeats" rule).
+        let max_interval_ns = self.cfg.fd.max_interval_ms as u128 * 1_000_000;
         let node = self.nodes[dst].as_ref().unwrap();
         for (id, ns) in node.chitchat.node_states() {
             if *id == self_id {
@@ -1012,6 +1023,14 @@ impl<'a> World<'a> {
             let pre = pre_hbs.get(id).copied().unwrap_or(0);
             if hb > pre {
                 e.1 += 1;
+                self.ev_seq += 1;
+                let t = self.fresh_timing.entry((dst, id.clone())).or_insert((None, None, None));
+                if let Some(prev) = t.0 {
+                    if self.now_ns - prev <= max_interval_ns {
+                        t.1 = Some(self.ev_seq);
+                    }
+                }
+                t.0 = Some(self.now_ns);
             }
             e.0 = hb;
         }
@@ -1287,6 +1306,7 @@ impl<'a> World<'a> {
                 self.flags.member_removed = true;
                 self.removed_hb.insert((slot, id.clone()), *hb);
                 self.fresh_since_creation.remove(&(slot, id.clone()));
+                self.fresh_timing.remove(&(slot, id.clone()));
                 if mon == Monitor::C12 {
                     match self.dead_since.get(&(slot, id.clone())) {
                         Some(since) if self.now_ns - since >= grace_ns => {}
@@ -1327,6 +1347,22 @@ impl<'a> World<'a> {
                     if fresh < 2 {
                         return Err(fail(mon, "live-without-evidence", format!("n{slot} reports {:?} live after only {fresh} strictly increasing heartbeat observations", id)).into());
                     }
+                    // "the normal dead-to-live path": two fresh observations at most max_interval
+                    // apart, the later one after the last evaluation that found the member dead
+                    let t = self.fresh_timing.get(&(slot, id.clone())).copied().unwrap_or((None, None, None));
+                    let ok = match (t.1, t.2) {
+                        (None, _) => false,
+                        (Some(_), None) => true,
+                        (Some(pair), Some(dead_eval)) => pair > dead_eval,
+                    };
+                    if !ok {
+                        return Err(fail(mon, "live-without-fresh-pair", format!("n{slot} reports {:?} live, but no two fresh heartbeat observations at most max_interval apart exist whose later one came after the last evaluation that found it dead ({fresh} fresh observations in all)", id)).into());
+                    }
+                }
+                if d {
+                    self.ev_seq += 1;
+                    let seq = self.ev_seq;
+                    self.fresh_timing.entry((slot, id.clone())).or_insert((None, None, None)).2 = Some(seq);
                 }
             }
         }
@@ -2003,7 +2039,7 @@ fn cfg_strategy(profile: Profile, mon: Monitor) -> BoxedStrategy<SimCfg> {
         Profile::Gc | Profile::TruncGc | Profile::Deep | Profile::Phased => prop_oneof![3 => Just(2_000u64), 1 => Just(10_000u64)].boxed(),
         _ => prop_oneof![1 => Just(0u64), 2 => Just(2_000u64), 2 => Just(10_000u64), 3 => Just(3_600_000u64)].boxed(),
     };
-    let predicate = if mon == Monitor::C13 { (0u8..4).boxed() } else { prop_oneof![4 => Just(0u8), 1 => 1u8..4].boxed() };
+    let predicate = if mon == Monitor::C13 { (0u8..6).boxed() } else { prop_oneof![4 => Just(0u8), 1 => 1u8..6].boxed() };
     let two = profile == Profile::TwoClusters;
     let ids = prop_oneof![
         Just("c".to_string()),
